@@ -32,6 +32,7 @@ func init() {
 			{Name: "genid-accepts-existing", File: "pkg/resource/id.go", Old: "if idCandidate != \"\" && !exists(idCandidate) {", New: "if idCandidate != \"\" && exists(idCandidate) {", Expect: "R01.5"},
 			{Name: "notfound-as-internal", File: "pkg/resource/collection.go", Old: "return nil, status.Errorf(codes.NotFound, \"id %v not found\", id)", New: "return nil, status.Errorf(codes.Internal, \"id %v not found\", id)", Expect: "R01.3"},
 			{Name: "already-exists-sentinel-code", File: "pkg/resource/opt.go", Old: "status.Error(codes.AlreadyExists, \"value already exists\")", New: "status.Error(codes.FailedPrecondition, \"value already exists\")", Expect: "R01.6"},
+			{Name: "genid-probes-raw-candidate", File: "pkg/resource/collection.go", Old: "\t\tif c.idInterceptor != nil {\n\t\t\tcandidate = c.idInterceptor(candidate)\n\t\t}\n\t\t_, exists := c.byId[candidate]", New: "\t\t_, exists := c.byId[candidate]", Expect: "R01.7"},
 			{Name: "get-skips-interceptor", File: "pkg/resource/collection.go", Old: "func (c *Collection) Get(id string, opts ...ReadOption) (proto.Message, bool) {\n\tif c.idInterceptor != nil {\n\t\tid = c.idInterceptor(id)\n\t}\n", New: "func (c *Collection) Get(id string, opts ...ReadOption) (proto.Message, bool) {\n", Expect: "R01.7"},
 			{Name: "explicit-unlock", Silent: true, File: "pkg/resource/collection.go", Old: "\tc.mu.RLock()\n\tdefer c.mu.RUnlock()\n\n\tentry, ok := c.byId[id]\n\tif !ok {\n\t\treturn nil, false\n\t}\n\n\treturn readConfig.FilterClone(entry.body), true",
 				New: "\tc.mu.RLock()\n\tentry, ok := c.byId[id]\n\tif !ok {\n\t\tc.mu.RUnlock()\n\t\treturn nil, false\n\t}\n\tres := readConfig.FilterClone(entry.body)\n\tc.mu.RUnlock()\n\treturn res, true"},
@@ -1078,6 +1079,46 @@ func r017(c *an.Ctx) {
 			}
 		})
 	}
+	// the uniqueness probe looks the candidate up under the key it will be stored under
+	nProbe, probeMapped := 0, true
+	for _, f := range an.WithClosures(gen) {
+		if f == gen {
+			continue
+		}
+		an.Instrs(f, func(in ssa.Instruction) {
+			lk, ok := in.(*ssa.Lookup)
+			if !ok {
+				return
+			}
+			if _, _, fld, isF := an.FieldOf(lk.X); !isF || fld != "byId" {
+				return
+			}
+			nProbe++
+			for _, lf := range an.PhiLeaves(lk.Index) {
+				if call, isCall := lf.Val.(*ssa.Call); isCall && an.CalleeName(call) == "dynamic" {
+					if _, _, fld, isF := an.FieldOf(call.Call.Value); isF && fld == "idInterceptor" {
+						continue
+					}
+				}
+				// the raw candidate: only where no interceptor is configured
+				rawOK := false
+				for _, e := range lf.Conds {
+					x, trueMeansNil, isNil := an.NilTest(e.If.Cond)
+					if !isNil || e.Branch != trueMeansNil {
+						continue
+					}
+					if _, _, fld, isF := an.FieldOf(x); isF && fld == "idInterceptor" {
+						rawOK = true
+					}
+				}
+				if !rawOK {
+					probeMapped = false
+				}
+			}
+		})
+	}
+	c.Check(nProbe > 0 && probeMapped, rule, name+"|uniqueness is probed under the intercepted id", gen.Pos(), fmt.Sprintf("%d probe(s)", nProbe),
+		"the exists-probe of genID looks the raw candidate up in byId although the item will be stored under idInterceptor(candidate): the mapped id can already be in use, so Add with a generated id fails with AlreadyExists (or a creating Update overwrites another item) although a free id exists")
 	switch {
 	case resultMapped:
 		c.Ok(rule, name+"|generated id is the intercepted id", gen.Pos(), "genID returns idInterceptor(candidate)")
